@@ -455,6 +455,8 @@ def groups_for(spec, stage):
                 ("dict", [(li, s) for li in lis for s in singles if s is not None])]
     if stage in ("2-functions-rest", "3-functions"):
         return [("file_array", [(li, s) for li in lis for s in singles])]
+    if stage == "fan-in":
+        return [("file_array", [(li, s) for li in lis for s in every]), ("dict", [(li, None) for li in lis])]
     raise ValueError(stage)
 
 
@@ -482,15 +484,33 @@ def specs_for(stage) -> list:
         out = [s for s in gen_map.pipelines(2, "quick") if len(s["funcs"]) == 2 and not in_quick_bound(s)]
     elif stage == "3-functions":
         out = [s3 for s in specs_for("2-functions-sub") for s3 in extend3(s)]
+    elif stage == "fan-in":
+        # ONE function fed by TWO mapped intermediates that come from DIFFERENT roots (+ a root of its own): zipped on one axis
+        # (one multi-index of all three roots) and as an outer product (each axis labelled by its own root)
+        sizes = dict(specs_for("1-function")[0]["sizes"])
+
+        def f(name, params, ms, oa, outs):
+            return {"name": name, "params": params, "ms": ms, "out_axes": oa, "internal": [], "outs": outs, "ishape_via": "map"}
+        out = [
+            {"roots": {"x": ["i"], "y": ["i"], "z": ["i"]}, "sizes": sizes, "funcs": [
+                f("f", ["x"], {"x": ["i"]}, ["i"], ["a"]), f("g", ["y"], {"y": ["i"]}, ["i"], ["b"]),
+                f("h", ["a", "b", "z"], {"a": ["i"], "b": ["i"], "z": ["i"]}, ["i"], ["c"])]},
+            {"roots": {"x": ["i"], "y": ["j"]}, "sizes": sizes, "funcs": [
+                f("f", ["x"], {"x": ["i"]}, ["i"], ["a"]), f("g", ["y"], {"y": ["j"]}, ["j"], ["b"]),
+                f("h", ["a", "b"], {"a": ["i"], "b": ["j"]}, ["i", "j"], ["c"])]},
+            {"roots": {"x": ["i"], "y": ["j"]}, "sizes": sizes, "funcs": [
+                f("f", ["x"], {"x": ["i"]}, ["i"], ["a"]), f("g", ["y"], {"y": ["j"]}, ["j"], ["b"]),
+                f("h", ["b", "a"], {"b": ["j"], "a": ["i"]}, ["j", "i"], ["c"])]},
+        ]
     else:
         raise ValueError(stage)
     _SPECS[stage] = out
     return out
 
 
-STAGES = {"quick": ["1-function", "2-functions-sub", "2-functions-swapped"],
-          "thorough": ["1-function", "2-functions-sub", "2-functions-swapped", "2-functions-sub-more", "2-functions-rest", "3-functions"]}
-NCHUNK = {"1-function": 32, "2-functions-sub": 224, "2-functions-swapped": 96, "2-functions-sub-more": 256, "2-functions-rest": 1024, "3-functions": 1024}
+STAGES = {"quick": ["1-function", "2-functions-sub", "2-functions-swapped", "fan-in"],
+          "thorough": ["1-function", "2-functions-sub", "2-functions-swapped", "fan-in", "2-functions-sub-more", "2-functions-rest", "3-functions"]}
+NCHUNK = {"fan-in": 3, "1-function": 32, "2-functions-sub": 224, "2-functions-swapped": 96, "2-functions-sub-more": 256, "2-functions-rest": 1024, "3-functions": 1024}
 
 
 def plan(tier, seed):
